@@ -175,7 +175,16 @@ def pin_content(sk, maxc, which=0):
         return []
     k = which % len(idx)
     free = set((idx[k:] + idx[:k])[:maxc])
-    return ['s[%d] == chr(120)' % i for i in idx if i not in free]
+    fr = (BS + 'frac') in sk or (BS + 'sqrt') in sk
+    return ['s[%d] == chr(%d)' % (i, 49 if fr else 120) for i in idx if i not in free]
+
+
+def digits_only(sk):
+    """fraction / root rendering formats its (symbolic) content with string formatting, which CrossHair realises value by
+    value: in the quick tier the content holes of such documents range over the ten digits only"""
+    if (BS + 'frac') not in sk and (BS + 'sqrt') not in sk:
+        return []
+    return ['ord(s[%d]) < 58' % i for i, ch in enumerate(sk) if ch == '§']
 
 
 def fill(sk):
@@ -200,7 +209,7 @@ def conditions(tier):
         if quick:
             # path count grows ~3x per free content hole (3-7 s per path): two free content holes per family in the quick
             # tier (one for the fraction / root families, whose rendering looks at the content), the others pinned to 'x'
-            extra = pin_content(sk, 1 if ('frac' in name or 'sqrt' in name or name == 'mix') else 2, k)
+            extra = pin_content(sk, 1 if ('frac' in name or 'sqrt' in name or name == 'mix') else 2, k) + digits_only(sk)
         conds.append(Cond('render_' + name, 's: str', sk_pre(sk) + extra, call, timeout=T, cost=len(sk) / 8.0,
                           twin=False, smoke=[dict(s=fill(sk)), dict(s=sk.replace('§', 'Z').replace('¶', '\t').replace('↵', '\n'))],
                           descr='skeleton %r under the whitespace policies x keep_braced_groups' % sk))
@@ -212,7 +221,7 @@ def conditions(tier):
             call = 'body_compose(s, %d, %r)' % (len(a), joiner)
             if quick:
                 call = 'body_compose(s, %d, %r, %r, (False,))' % (len(a), joiner, ('macros', names[1 + n % 3]))
-            conds.append(Cond(nm, 's: str', sk_pre(sk) + (pin_content(sk, 2, n) if quick else []), call, timeout=T,
+            conds.append(Cond(nm, 's: str', sk_pre(sk) + ((pin_content(sk, 1, n) + digits_only(sk)) if quick else []), call, timeout=T,
                               cost=len(sk) / 8.0, twin=False, smoke=[dict(s=fill(sk))],
                               descr='blocks %r and %r joined by %r' % (a, b, joiner)))
     return conds
@@ -226,8 +235,8 @@ META = dict(
                'strict parser with the default context'],
     bounds=dict(quick='41 document families of the core sublanguage (text, groups, formatting macros, symbol macros followed by text / '
                       'macros / empty groups, fractions, roots, accents, specials, comments, paragraph breaks, inline and display math, '
-                      'unknown and transparent environments) with content holes = any ASCII letter or digit (at most two of them free per condition, one in the fraction / '
-                      'root families, the others pinned to x) and whitespace holes = any whitespace character, each rendered under the default policy and one of the three others (rotating), keep_braced_groups on group families, '
+                      'unknown and transparent environments) with content holes = any ASCII letter or digit (at most two of them free per condition, one - a digit - in the fraction / '
+                      'root families and one in the composition conditions, the others pinned to x, or to 1 in documents with a fraction or root) and whitespace holes = any whitespace character, each rendered under the default policy and one of the three others (rotating), keep_braced_groups on group families, '
                       'and compared with a reference written from the class documentation; composition law for every ninth pair of 9 '
                       'self-contained blocks joined by a paragraph break and by a space',
                 thorough='every family under all 4 policies x keep_braced_groups; all 81 block pairs'),
